@@ -81,3 +81,43 @@ RULES = [
     ("C14.CONV", "no narrowing integer conversion on the text path", rule_conv),
     ("C14.EMITTED", "the emitted Stack::pop / push (both variants): same refill, EOF and output conversion rules", p_c03.rule_stack),
 ]
+
+
+def rule_memreader(ctx, R):
+    """the in-memory reader (library users and the tests feed input through it): the text is cut at line feeds only,
+    lines are handed out in order, one per call, and the end is the empty string"""
+    from . import p_c06
+    fb = ctx.fb_all
+    n1 = "util::io::CustomReader::new"
+    b, d = p_c06.fn_lang(fb, n1, epsilon=set(), set_events=True)
+    if R.anchor(b is not None, "memreader_new", "CustomReader::new"):
+        R.analyse(n1)
+        try:
+            ws = d.enumerate_all(20)
+        except RuntimeError:
+            ws = []
+        rets = [w[-1] for w in ws]
+        ok = len(rets) == 1 and rets[0] in (
+            "RET(CustomReader::CustomReader{Iterator::collect(Iterator::map(str::split(P1,K10),FN:From::from)),K0})",
+            "RET(CustomReader::CustomReader{Iterator::collect(Iterator::map(str::split(P1,K10),FN:ToString::to_string)),K0})",
+            "RET(CustomReader::CustomReader{Iterator::collect(Iterator::map(str::split(P1,K10),FN:ToOwned::to_owned)),K0})",
+        )
+        R.check(ok, "memreader:split", "the text is cut exactly at line feeds (nothing else, such as a carriage return, is removed) and reading starts at the first line: %s" % rets, b.span)
+    n2 = "<util::io::CustomReader as hyeong::util::io::ReadLine>::read_line_"
+    b, d = p_c06.fn_lang(fb, n2, epsilon=set(), set_events=True)
+    if R.anchor(b is not None, "memreader_read", "CustomReader::read_line_"):
+        R.analyse(n2)
+        try:
+            ws = sorted(d.enumerate_all(20))
+        except RuntimeError:
+            ws = []
+        core = sorted([x for x in w if x.startswith(("EQ[", "SET(", "RET("))] for w in ws)
+        want = sorted([
+            ["EQ[P1.idx,Vec::len(P1.buf)]=1", "RET(Result::Ok{From::from(K'')})"],
+            ["EQ[P1.idx,Vec::len(P1.buf)]=0", "SET(P1.idx,(P1.idx Add K1))", "RET(Result::Ok{COPY(Index::index(P1.buf,P1.idx))})"],
+        ])
+        alt = sorted([[x.replace("From::from(K'')", "String::new()") for x in w] for w in want])
+        R.check(core in (want, alt), "memreader:in_order", "each call returns the next line and advances by one; past the last line it returns the empty string: %s" % core, b.span)
+
+
+RULES.append(("C14.MEMREADER", "the in-memory reader cuts the text at line feeds only and hands the lines out in order", rule_memreader))
